@@ -9,6 +9,7 @@ import Driver.Engine
 import Driver.Client
 import Driver.C14
 import Driver.C06
+import Driver.C20
 /-!
 Line-protocol driver: one request per line on stdin, one answer per line on stdout.
 Only model files are imported (no proofs, no Mathlib), so this links as a native executable.
@@ -39,6 +40,7 @@ def dispatch (line : String) : String :=
     | "lease" => cmdLease args
     | "announce" => cmdAnnounce args
     | "credit" => cmdCredit args
+    | "rxb" => cmdRxb args
     | _ => "bad-op"
 
 partial def loop (h : IO.FS.Stream) (out : IO.FS.Stream) : IO Unit := do
